@@ -1,7 +1,157 @@
-import VermouthModel.Proto
-open Proto
+import VermouthModel.C05
+open Proto Iso C05
 
-/-- placeholder driver for C05: replaced when the model is written -/
-def handle (_ : Unit) (_ : List Tok) : Unit × String := ((), "bad-op")
+/-
+Encoding (see harness/c05.py):
+  Val    : `-` | int | xstr | [ 0 b ] (bool) | [ 1 s.. ] (list of str)
+  TVal   : Val | [ 2 v.. ] (Choice) | [ 3 v ] (NotDefinedOrNot)
+  Attrs  : [ [ key val ].. ]
+  Order  : int | xstr | [ 0 b ] | `-`
+  Param  : xstr | [ name [keys] fmt ]
+  Mol    : nodes edges md inters cites      node = [ key attrs [ [name-part..].. ] ]
+  Link   : [ nodes edges molmeta nonEdges patterns removed inters cites ]
+-/
+
+def valOf : Tok → Option Val
+  | Tok.none => some Val.none
+  | Tok.int i => some (Val.int i)
+  | Tok.str s => some (Val.str s)
+  | Tok.list (Tok.int 0 :: [Tok.int b]) => some (Val.bool (b != 0))
+  | Tok.list (Tok.int 1 :: rest) => (rest.mapM Tok.str?).map Val.list
+  | _ => none
+
+def tvalOf : Tok → Option TVal
+  | Tok.list (Tok.int 2 :: rest) => (rest.mapM valOf).map TVal.choice
+  | Tok.list [Tok.int 3, v] => (valOf v).map TVal.notDef
+  | t => (valOf t).map TVal.plain
+
+def kvOf (f : Tok → Option α) (t : Tok) : Option (String × α) := do
+  match ← t.list? with
+  | [k, v] => pure (← k.str?, ← f v)
+  | _ => none
+
+def attrsOf (t : Tok) : Option Attrs := do (← t.list?).mapM (kvOf valOf)
+def tattrsOf (t : Tok) : Option TAttrs := do (← t.list?).mapM (kvOf tvalOf)
+
+def orderOf : Tok → Option Order
+  | Tok.int i => some (Order.num i)
+  | Tok.str s => some (Order.str s.toList)
+  | Tok.list [Tok.int 0, Tok.int b] => some (Order.bool (b != 0))
+  | Tok.none => some Order.bad
+  | _ => none
+
+def paramOf : Tok → Option Param
+  | Tok.str s => some (Param.lit s)
+  | Tok.list [n, ks, f] => do pure (Param.eff (← n.str?) (← ints? ks) (← f.optStr?))
+  | _ => none
+
+def pairOf (t : Tok) : Option (Int × Int) := do
+  match ← t.list? with
+  | [u, v] => pure (← u.int?, ← v.int?)
+  | _ => none
+
+def interOf (t : Tok) : Option (String × Inter) := do
+  match ← t.list? with
+  | [ty, atoms, params, md] =>
+    pure (← ty.str?, { atoms := ← ints? atoms, params := ← (← params.list?).mapM paramOf, md := ← attrsOf md })
+  | _ => none
+
+def mnodeOf (t : Tok) : Option MNode := do
+  match ← t.list? with
+  | [k, a, mods] => pure { key := ← k.int?, attrs := ← attrsOf a, mods := ← (← mods.list?).mapM strs? }
+  | _ => none
+
+def molOf (nodes edges md inters cites : Tok) : Option Mol := do
+  pure { nodes := ← (← nodes.list?).mapM mnodeOf, edges := ← (← edges.list?).mapM pairOf,
+         md := ← attrsOf md, inters := ← (← inters.list?).mapM interOf, cites := ← strs? cites }
+
+def lnodeOf (t : Tok) : Option LNode := do
+  match ← t.list? with
+  | [k, a, r] =>
+    let rep ← (match r with
+      | Tok.none => some Option.none
+      | r => (attrsOf r).map some)
+    pure { key := ← k.int?, attrs := ← tattrsOf a, replace := rep }
+  | _ => none
+
+def keyedOf (t : Tok) : Option (Int × TAttrs) := do
+  match ← t.list? with
+  | [k, a] => pure (← k.int?, ← tattrsOf a)
+  | _ => none
+
+def delOf (t : Tok) : Option (String × LDel) := do
+  match ← t.list? with
+  | [ty, atoms, params, aa, md] =>
+    let aas ← (match aa with
+      | Tok.none => some Option.none
+      | aa => do pure (some (← (← aa.list?).mapM tattrsOf)))
+    pure (← ty.str?, { atoms := ← ints? atoms, params := ← (← params.list?).mapM paramOf,
+                        atomAttrs := aas, md := ← tattrsOf md })
+  | _ => none
+
+def linkOf (t : Tok) : Option Link := do
+  match ← t.list? with
+  | [nodes, edges, mm, nes, pats, rem, ints, cites] =>
+    pure { nodes := ← (← nodes.list?).mapM lnodeOf, edges := ← (← edges.list?).mapM pairOf,
+           molmeta := ← tattrsOf mm, nonEdges := ← (← nes.list?).mapM keyedOf,
+           patterns := ← (← pats.list?).mapM (fun p => do (← p.list?).mapM keyedOf),
+           removed := ← (← rem.list?).mapM delOf, inters := ← (← ints.list?).mapM interOf,
+           cites := ← strs? cites }
+  | _ => none
+
+def mapOfTok (t : Tok) : Option Map := do (← t.list?).mapM pairOf
+
+/- encoders -/
+def encVal : Val → String
+  | .none => "-"
+  | .int i => encInt i
+  | .bool b => encList ["0", encBool b]
+  | .str s => encStr s
+  | .list l => encList ("1" :: l.map encStr)
+
+def encAttrs (a : Attrs) : String := encList (a.map fun kv => encList [encStr kv.1, encVal kv.2])
+
+def encParam : Param → String
+  | .lit s => encStr s
+  | .eff n ks f => encList [encStr n, encList (ks.map encInt), encOptStr f]
+
+def encMap (m : Map) : String := encList (m.map fun p => encList [encInt p.1, encInt p.2])
+
+def encMol (m : Mol) : String :=
+  encList (m.nodes.map fun n => encList [encInt n.key, encAttrs n.attrs]) ++ " " ++
+  encList (m.edges.map fun e => encList [encInt e.1, encInt e.2]) ++ " " ++
+  encList (m.inters.map fun e => encList [encStr e.1, encList (e.2.atoms.map encInt),
+                                           encList (e.2.params.map encParam), encAttrs e.2.md]) ++ " " ++
+  encList (m.cites.map encStr)
+
+def handle (_ : Unit) (toks : List Tok) : Unit × String :=
+  let r : Option String :=
+    match toks with
+    | [Tok.str "order", o1, r1, o2, r2] => do
+        match matchOrder (← orderOf o1) (← r1.int?) (← orderOf o2) (← r2.int?) with
+        | some b => pure (encBool b)
+        | none => pure "valueerror"
+    | [Tok.str "interp", o] => do
+        match interpretOrder (← orderOf o) with
+        | some (t, v) => pure ((match t with | .number => "number" | .angle => "angle" | .star => "star") ++ " " ++ encInt v)
+        | none => pure "valueerror"
+    | [Tok.str "atoms", node, ta] => do
+        pure (encBool (atomsMatch (← mnodeOf node) (← tattrsOf ta)))
+    | [Tok.str "match", nodes, edges, md, link] => do
+        let m ← molOf nodes edges md (Tok.list []) (Tok.list [])
+        let l ← linkOf link
+        let nraw := if attributesMatch m.md l.molmeta [] then (rawMatches m l).length else 0
+        match matchLinkE m l with
+        | some ps => pure (encNat nraw ++ " " ++ encList (ps.map encMap))
+        | none => pure "error"
+    | [Tok.str "apply", nodes, edges, md, inters, cites, links, given] => do
+        let m ← molOf nodes edges md inters cites
+        let ls ← (← links.list?).mapM linkOf
+        let gs ← (← given.list?).mapM (fun g => do (← g.list?).mapM mapOfTok)
+        match applyLinksE m ls gs with
+        | some r => pure (encMol r)
+        | none => pure "error"
+    | _ => none
+  ((), r.getD "bad-op")
 
 def main : IO Unit := runDriver handle ()
